@@ -128,26 +128,26 @@ def shard(job) -> dict:
         for api in ("generic", "rdflib"):
             if api == "rdflib" and not is_rdf11(st):
                 continue
-            presets = pressure_presets(st, api == "rdflib")
-            if not presets:
-                acc.counters["fits_everywhere"] += 1
-                continue
-            for preset in presets:
-                hists = [()] + [(h,) for h in HISTORY]
-                if hist_len >= 2:
-                    hists += list(itertools.product(HISTORY, repeat=2))
-                for cls in DR.CLASSES:
-                    for hist in hists:
-                        if any(not AL.fits(h, preset) for h in hist):
-                            continue
-                        gs = [DEFAULT] if cls == "triple" else GRAPH_NAMES
-                        for g in gs:
-                            if api == "rdflib" and g[0] == "L":
+            any_preset = False
+            for cls in DR.CLASSES:
+                gs = [DEFAULT] if cls == "triple" else GRAPH_NAMES
+                for g in gs:
+                    if api == "rdflib" and g[0] == "L":
+                        continue
+                    full = st if cls == "triple" else (*st, g)
+                    # presets in which the statement *including its graph name* overflows a table
+                    for preset in pressure_presets(full, api == "rdflib"):
+                        any_preset = True
+                        hists = [()] + [(h,) for h in HISTORY]
+                        if hist_len >= 2:
+                            hists += list(itertools.product(HISTORY, repeat=2))
+                        for hist in hists:
+                            if any(not AL.fits(h, preset) for h in hist):
                                 continue
                             seq = [*hist, st]
                             if cls != "triple":
                                 seq = [(*s, g) for s in seq]
-                            if not AL.fits(seq[0], preset) and len(seq) > 1:
+                            if len(seq) > 1 and not all(AL.fits(x, preset) for x in seq[:-1]):
                                 continue
                             case = {"api": api, "cls": cls, "preset": list(preset),
                                     "seq": [list(s) for s in seq]}
@@ -165,6 +165,8 @@ def shard(job) -> dict:
                                 case)
                             if acc.evals % 5000 == 1:
                                 acc.sample(case, cap=2)
+            if not any_preset:
+                acc.counters["fits_everywhere"] += 1
     if not acc.samples and acc.evals:
         acc.sample({"kind": kind, "range": [lo, hi]})
     return acc.out()
